@@ -423,7 +423,7 @@ int main(int argc, char** argv) {
       // 100 state rounds) get one case in six
       unsigned scheme = (unsigned)rng.below(S_GINGER_O);
       if (streaming && rng.chance(1, 6))
-        scheme = S_GINGER_O + (unsigned)rng.below(NUM_SCHEMES - S_GINGER_O);
+        scheme = (unsigned)rng.pick({(int)S_GINGER_O, (int)S_GINGER_I, (int)S_FENNEL_O, (int)S_FENNEL_I, (int)S_SUGAR_O, (int)S_SUGAR_O});
       if (onlyScheme >= 0)
         scheme = (unsigned)onlyScheme;
       unsigned gdir = (unsigned)rng.pick({(int)D_OUT, (int)D_OUT, (int)D_IN, (int)D_IN, (int)D_SYM});
